@@ -18,6 +18,8 @@ tvars == <<mcvars, l>>
 
 RealUdpSched == <<500, 1000, 2000, 4000, 8000, 16000>>
 RealUdpSchedUs == <<500000, 1000000, 2000000, 4000000, 8000000, 16000000>>     \* the same in microseconds
+\* (the microsecond configurations set IdleWait = 1: the idle wake-up is as-is and never compared, and `now + 3600 s` in
+\* microseconds would leave TLC's 32-bit integers once a history is older than 147 s - met in the thorough tier)
 
 TInit == MCInit /\ l = 1
 
